@@ -108,7 +108,7 @@ class SigGen:
                 ops.append(op)
         # drain every open stream, then leave
         for s, st in sorted(self.streams.items()):
-            if st["open"] and not st["once"]:
+            if st["open"] and not st["once"] and not st.get("finished"):
                 ops += [{"op": "pull", "s": s} for _ in range(min(self.n_dispatched + 1, 70))]
         for s, st in sorted(self.streams.items()):
             if st["open"]:
@@ -156,9 +156,16 @@ class SigGen:
 
     def gen_op(self) -> dict[str, Any] | None:
         rng = self.rng
-        kind = rng.choices(["access", "subscribe", "wait", "dispatch", "pull", "leave", "accessClass"],
-                           [10, 10, 4, 34, 26, 5, 1.5])[0]
+        kind = rng.choices(["access", "subscribe", "wait", "dispatch", "pull", "leave", "accessClass", "finish"],
+                           [10, 10, 4, 34, 26, 5, 1.5, 1.5])[0]
         open_streams = [s for s, st in self.streams.items() if st["open"]]
+        if kind == "finish":
+            cands = [s for s in open_streams if not self.streams[s]["once"] and not self.streams[s].get("finished")]
+            if not cands:
+                return None
+            s = rng.choice(cands)
+            self.streams[s]["finished"] = True
+            return {"op": "finish", "s": s}
         if kind == "access":
             return self.op_access()
         if kind == "accessClass":
@@ -201,6 +208,9 @@ class SigGen:
         if kind == "pull":
             if not open_streams:
                 return None
+            open_streams = [s for s in open_streams if not self.streams[s].get("finished")]
+            if not open_streams:
+                return None
             return {"op": "pull", "s": rng.choice(open_streams)}
         if kind == "leave":
             if not open_streams or rng.random() < 0.3:
@@ -229,10 +239,16 @@ class SigProp(Prop):
         return run_sig_case(case)
 
     def model_request(self, case, impl):
-        return {"kind": "sig", "evparents": case["evparents"], "ops": case["ops"]}
+        # "finish" (the consumer finalises its iterator and stays subscribed) changes nothing in the model: such a
+        # consumer is one that never pulls again
+        return {"kind": "sig", "evparents": case["evparents"], "ops": [op for op in case["ops"] if op["op"] != "finish"]}
 
     def compare(self, case, impl, model):
-        for i, (m, r) in enumerate(zip(model["out"], impl["out"])):
+        kept = [(i, r) for i, (op, r) in enumerate(zip(case["ops"], impl["out"])) if op["op"] != "finish"]
+        for i, (op, r) in enumerate(zip(case["ops"], impl["out"])):
+            if op["op"] == "finish" and r != ["ok"]:
+                return f"step {i} {op}: finalising the iterator of an open stream gave {r}"
+        for m, (i, r) in zip(model["out"], kept):
             if m != r:
                 return f"step {i} {case['ops'][i]}: model {m} vs implementation {r}"
         if model["warnings"] != impl["warnings"]:
@@ -262,6 +278,7 @@ def valid_sig_ops(case: dict[str, Any], ops: list[dict[str, Any]]) -> bool:
     before use: a shrunk list must keep both consistent."""
     chans: dict[tuple[int, str], int] = {}
     streams: set[int] = set()
+    finished: set[int] = set()
     nchan = 0
     for op in ops:
         k = op["op"]
@@ -280,9 +297,11 @@ def valid_sig_ops(case: dict[str, Any], ops: list[dict[str, Any]]) -> bool:
         elif k == "dispatch":
             if op["chan"] is not None and op["chan"] >= nchan:
                 return False
-        elif k in ("pull", "leave"):
-            if op["s"] not in streams:
+        elif k in ("pull", "leave", "finish"):
+            if op["s"] not in streams or (k == "pull" and op["s"] in finished):
                 return False
+            if k == "finish":
+                finished.add(op["s"])
     # the channel numbering of the original must be preserved
     orig: dict[tuple[int, str], int] = {}
     n = 0
